@@ -24,7 +24,7 @@ from zoneinfo import ZoneInfo
 
 from typing_extensions import TypeAlias
 
-from mashumaro.config import BaseConfig
+from mashumaro.config import ADD_DIALECT_SUPPORT, BaseConfig
 from mashumaro.core.const import PY_311_MIN
 from mashumaro.core.meta.code.builder import CodeBuilder
 from mashumaro.core.meta.helpers import (
@@ -53,6 +53,7 @@ from mashumaro.core.meta.helpers import (
     type_name,
 )
 from mashumaro.core.meta.types.common import NoneType
+from mashumaro.dialect import Dialect
 from mashumaro.helper import pass_through
 from mashumaro.jsonschema.annotations import (
     Annotation,
@@ -296,15 +297,23 @@ def _get_schema_or_none(
     return schema
 
 
+class _DefaultValueDialect(Dialect):
+    omit_none = False
+    omit_default = False
+    serialize_by_alias = False
+
+
 def _default(f_type: Type, f_value: Any, config_cls: Type[BaseConfig]) -> Any:
     @dataclass
     class CC(DataClassJSONMixin):
         x: f_type = f_value  # type: ignore
 
         class Config(config_cls):  # type: ignore
-            pass
+            code_generation_options = [ADD_DIALECT_SUPPORT]
+            lazy_compilation = False
 
-    return CC(f_value).to_dict()["x"]
+    # the owner's key-dropping / renaming options must not hide the value
+    return CC(f_value).to_dict(dialect=_DefaultValueDialect)["x"]
 
 
 Registry = InstanceSchemaCreatorRegistry()
